@@ -1360,8 +1360,16 @@ func (st *gtState) translateCfg(g *gen, dir, key string, cfg *gtCfg, caller *gtF
 		return fn
 	}
 	st.pending = append(st.pending, fn.text)
+	if caller != nil && !gtItemKeys[full] {
+		// a helper that only other translated functions call (it may be split off, renamed or inlined by a refactoring:
+		// no lemma names it): proofs open it with `autounfold with src_helpers`
+		st.pending = append(st.pending, fmt.Sprintf("#[global] Hint Unfold %s : src_helpers.\n", fn.coqName))
+	}
 	return fn
 }
+
+// gtItemKeys: the functions listed in gotrans_apply.go (dir:key), i.e. those with a lemma of their own
+var gtItemKeys = map[string]bool{}
 
 func (st *gtState) translateFn(g *gen, dir, key string, fn *gtFn, cfg *gtCfg) {
 	p := g.gtPkg(dir)
@@ -2006,6 +2014,7 @@ func assignedElsewhere(p *gpkg, name string) bool {
 const gtPrelude = `(* gotrans: what the translated Go functions below are written over.
    Integers are Z; + - * << on a typed integer carry the wrap of its type; a partial
    operation (index out of range, panic) makes the enclosing function return an option. *)
+Create HintDb src_helpers.
 Definition go_bind {A B : Type} (x : option A) (f : A -> option B) : option B :=
   match x with Some a => f a | None => None end.
 Definition go_wrap_u (bits x : Z) : Z := Z.modulo x (Z.pow 2%Z bits).
@@ -2080,6 +2089,11 @@ type gtItem struct {
 
 // gtFamily registers one generator that translates the listed functions (and, before them, whatever they call).
 func gtFamily(name string, items []gtItem) {
+	for _, it := range items {
+		if it.cfg == nil || it.cfg.suffix == "" {
+			gtItemKeys[it.dir+":"+it.key] = true
+		}
+	}
 	register(name, func(g *gen) {
 		st := g.gtState()
 		st.family = name
